@@ -52,6 +52,7 @@ def source(sfx, p, with_inner=True, variant=0):
     L = ["from utype import Schema, DataClass, Field, Options, Lax", "import utype",
          "from typing import List, Dict, Tuple, Set, Optional, Any, Generator, Annotated, Union, Literal",
          "from sim.faults import Leaf, hook_point", "",
+         "import enum", "class EnumOfLists(enum.Enum):", "    A = [1, 1]", "    B = [2, 2]", "",
          "def fac_list():", "    hook_point('fac_list')", "    return [7]", "",
          "TEMPLATE = {'rows': [[0]], 'meta': {'tags': []}}", "",
          "def fac_template():", "    return TEMPLATE      # a factory that hands out one shared object", ""]
@@ -70,6 +71,7 @@ def source(sfx, p, with_inner=True, variant=0):
           "    exd: int = Field(default=0, on_error='exclude', dependencies=['dep'])", "    dep: int = Field(required=False)",
           "    tpl: dict = Field(default_factory=fac_template)",
           "    cst: list = Field(const=[1, 2], required=False)",
+          "    enl: list = Field(enum=EnumOfLists, required=False)",
           f"    inner: Optional['Inner{S}'] = None", f"    inners: List['Inner{S}'] = Field(default_factory=list)",
           "    leaf: Optional[Leaf] = None", "    def __validate__(self):", "        hook_point('validate')", ""]
     L += [f"class D{S}(DataClass):", f"    __options__ = {opt}", "    n: int", "    lst: List[int] = [1]",
@@ -133,6 +135,8 @@ INIT_TEMPLATES = [
     {"n": 1, "cst": [1, 2]},                                # a constant that is a mutable value
     {"n": 2, "cst": [1, 2], "lst": [3]},
     {"n": 1, "cst": [1, 2, 99]},                            # not the constant
+    {"n": 1, "enl": [1, 1]},                                # a member of an Enum whose values are mutable
+    {"n": 2, "enl": [2, 2], "lst": [4]},
 ]
 D_TEMPLATES = [{"n": 1, "lst": [], "dct": {"g": []}}, {"n": 1}, {"n": "2", "lst": ["3"]}, {"n": 1, "dct": {"q": [1]}}, {"n": "zz"}, {"n": 1, "raw": [[1]]},
                {"n": 1, "leaf": {"$r": 0}}, {}, {"n": 1, "exd": "zz"}, {"n": 1, "exd": 5}, {"n": 1, "exd": 6, "dep": 2}]
@@ -213,7 +217,7 @@ def generate(rng, tier):
         elif r < 0.78:
             ops.append({"op": "local", "data": rng.choice(LOCAL_TEMPLATES)})
         elif r < 0.93:
-            ops.append({"op": "mutate", "target": rng.randrange(0, 8), "slot": rng.randrange(0, 30), "how": rng.choice(["append", "append", "clear", "setkey"])})
+            ops.append({"op": "mutate", "target": rng.randrange(0, 8), "slot": rng.randrange(0, 30), "how": rng.choice(["append", "append", "clear", "setkey", "all", "all"])})
         else:
             ops.append({"op": "other_module", "data": rng.choice([{"n": "x"}, {"inner": {"other": "p"}}, {"inners": [{"other": "q"}]}])})
     plan["ops"] = ops
@@ -446,18 +450,20 @@ def execute(plan):
             others = [(i, v) for i, v in results if v is not None and v is not tgt]
             before = [kernel.jdump(kernel.canon(v)) for _i, v in others]
             how = op["how"]
-            if isinstance(slot, list):
-                if how == "clear":
-                    del slot[:]
-                else:
-                    slot.append(99)
-            elif isinstance(slot, dict):
-                if how == "clear":
-                    dict.clear(slot)
-                else:
-                    dict.__setitem__(slot, "mut", [99])
-            elif isinstance(slot, set):
-                slot.add(99)
+            # "all": every mutable container reachable from the result is changed (whatever is shared with anything shows)
+            for slot in (slots if how == "all" else [slot]):
+                if isinstance(slot, list):
+                    if how == "clear":
+                        del slot[:]
+                    else:
+                        slot.append(99)
+                elif isinstance(slot, dict):
+                    if how == "clear":
+                        dict.clear(slot)
+                    else:
+                        dict.__setitem__(slot, "mut", [99])
+                elif isinstance(slot, set):
+                    slot.add(99)
             res.stats["probe:result_mutated"] += 1
             dirty = True
             after = [kernel.jdump(kernel.canon(v)) for _i, v in others]
